@@ -293,6 +293,7 @@ var hostile = []string{
 	"<phyloxml>", "<phyloxml></phyloxml>", "<phyloxml><phylogeny></phylogeny></phyloxml>", "<phyloxml><phylogeny><clade></clade></phylogeny></phyloxml>",
 	"<phyloxml><phylogeny><clade><clade><name>a</name></clade></clade></phylogeny></phyloxml>", "<phyloxml><phylogeny><clade><name>a</name></clade></phylogeny></phyloxml>",
 	"<phyloxml><phylogeny><clade><clade/><clade/></clade></phylogeny></phyloxml>", "<phyloxml><phylogeny rooted=\"x\"><clade/></phylogeny></phyloxml>",
+	"(A,B)\u00a0;", "((A,B)\f,C);", "(A,B)\v;", "((A,B)\u2003:1,C);", "(\u00a0,B);", "(A,B)\u00a0\u00a0:1;", "(A,B)\u3000;", "(A,(B,C)\u0085);",
 	"(a,b)0.9/0.01;", "(a,b,(c,d)0.9/0.01)0.95/0.001;", "(a,b)1/2:3;", "(a,b)0.5:1[c];", "((a,b)1/2/3,c)4/5;", "(a,b)/;", "(a,b)1/;", "(a,b)/1;",
 	"{}", "{\"version\":\"v2\"}", "{\"version\":\"v2\",\"tree\":{}}", "{\"version\":\"v2\",\"tree\":{\"children\":[{}]}}", "{\"version\":\"v2\",\"tree\":{\"name\":\"a\"}}",
 	"{\"version\":\"v2\",\"tree\":{\"children\":[{\"name\":\"a\"}]}}", "{\"version\":\"v2\",\"tree\":{\"children\":null}}", "null", "[]", "{\"version\":\"v2\",\"tree\":null}",
